@@ -509,3 +509,92 @@ Definition resub_model_ok (c : resub_case) : bool :=
 
 Definition c05_resub_violations (cs : list resub_case) : list nat := indices_where (fun c => negb (resub_ok c)) cs.
 Definition c05_resub_mismatches (cs : list resub_case) : list nat := indices_where (fun c => negb (resub_model_ok c)) cs.
+
+(* ---------- RetryClient: messages published while the retry queue is not empty ---------- *)
+(* the interrupted request that sits in the retry queue; the messages the application published behind it
+   (m_id = the identifier the application gave, 0 = none), in order; packets after the CONNECT of the
+   next connection, on which Retry() ran *)
+Definition parked_case := (rop * list message * list (list N))%type.
+
+(* property: after the retransmission of the interrupted request, one PUBLISH per message, in order, with
+   exactly the topic, payload, QoS and RETAIN the application asked for, DUP=0, the application's
+   identifier if it gave one, and (QoS 2) the PUBREL of that identifier *)
+Fixpoint parked_seq_ok (dupfirst : bool) (ms : list message) (ps : list packet) : bool :=
+  match ms with
+  | [] => match ps with [] => true | _ => false end
+  | m :: r =>
+      match ps with
+      | PPublish dup q rt t (Some id) pl :: ps' =>
+          Bool.eqb dup dupfirst && (q =? m_qos m) && Bool.eqb rt (m_retain m) && str_eqb t (m_topic m)
+          && str_eqb pl (m_payload m) && negb (id =? 0) && ((m_id m =? 0) || (id =? m_id m))
+          && (if q =? 2 then
+                match ps' with
+                | PPubRel i :: ps'' => (i =? id) && parked_seq_ok false r ps''
+                | _ => false
+                end
+              else parked_seq_ok false r ps')
+      | _ => false
+      end
+  end.
+
+Definition parked_ok (c : parked_case) : bool :=
+  let '(first, ms, ws) := c in
+  match decode_conn ws with
+  | None => false
+  | Some ps =>
+      match first with
+      | RPub m0 => ((m_qos m0 =? 1) || (m_qos m0 =? 2)) && parked_seq_ok true (m0 :: ms) ps
+      | RSub subs => match ps with
+                     | PSubscribe id ss :: ps' => subs_eqb ss subs && negb (id =? 0) && parked_seq_ok false ms ps'
+                     | _ => false
+                     end
+      | RUnsub ts => match ps with
+                     | PUnsubscribe id tps :: ps' => list_eqb str_eqb tps ts && negb (id =? 0) && parked_seq_ok false ms ps'
+                     | _ => false
+                     end
+      end
+  end.
+
+Definition set_id (m : message) (id : N) : message :=
+  {| m_topic := m_topic m; m_id := id; m_qos := m_qos m; m_retain := m_retain m; m_dup := m_dup m;
+     m_payload := m_payload m |}.
+
+Definition publish_id_of (b : list N) : N :=
+  match decode_whole b with Some (PPublish _ _ _ _ (Some i) _) => i | _ => 0 end.
+
+(* model: byte for byte the encoder model on the application's message (struct copy: every field) *)
+Fixpoint parked_bytes_ok (dupfirst : bool) (ms : list message) (ws : list (list N)) : bool :=
+  match ms with
+  | [] => no_writes ws
+  | m :: r =>
+      match ws with
+      | w :: ws' =>
+          let id := publish_id_of w in
+          obytes_eqb (pack_publish (set_id (with_dup m dupfirst) id)) (Some w)
+          && ((m_id m =? 0) || (id =? m_id m))
+          && (if m_qos m =? 2 then
+                match ws' with
+                | rl :: ws'' => obytes_eqb (pack_pubrel id) (Some rl) && parked_bytes_ok false r ws''
+                | [] => false
+                end
+              else parked_bytes_ok false r ws')
+      | [] => false
+      end
+  end.
+
+Definition parked_model_ok (c : parked_case) : bool :=
+  let '(first, ms, ws) := c in
+  match first with
+  | RPub m0 => parked_bytes_ok true (m0 :: ms) ws
+  | RSub subs => match ws with
+                 | w :: ws' => obytes_eqb (pack_subscribe (packet_id_of w) subs) (Some w) && parked_bytes_ok false ms ws'
+                 | [] => false
+                 end
+  | RUnsub ts => match ws with
+                 | w :: ws' => obytes_eqb (pack_unsubscribe (packet_id_of w) ts) (Some w) && parked_bytes_ok false ms ws'
+                 | [] => false
+                 end
+  end.
+
+Definition c05_parked_violations (cs : list parked_case) : list nat := indices_where (fun c => negb (parked_ok c)) cs.
+Definition c05_parked_mismatches (cs : list parked_case) : list nat := indices_where (fun c => negb (parked_model_ok c)) cs.
